@@ -555,6 +555,7 @@ class Linalg:
         """
         side = len(matrix)
         inverse = np.eye(side, dtype="object")
+        matrix = np.array(matrix, dtype="object")
         matrix = np.column_stack((matrix, inverse))
 
         # Eliminate lower triangle
